@@ -300,6 +300,20 @@ def run(ctx):
     # validated against the reference, not only what the tests assert
     if not q:
         suite_traces(ctx)
+    # (2c) calls of symbolic multivectors: near-equal siblings (same symbols and blades, one float coefficient differing in the
+    # 4th significant digit) called in turn on ONE algebra -- a call must not be served by what was compiled for another
+    # multivector called earlier
+    from drive_subst import run_jobs as _subst_jobs
+    tdir = os.path.join(ctx.work, 'symcalls')
+    os.makedirs(tdir, exist_ok=True)
+    sj = [{'u': u_, 'opts': {}, 'cases': [], 'seed': ctx.seed + 7 * i_, 'n_sib': 6 if q else 40, 'out': os.path.join(tdir, f'y{i_}.ndjson'), 'prefix': f'y{i_}'}
+          for i_, u_ in enumerate([ucfg(sig=[1, 1]), ucfg(sig=[0, 1, 1]), named_ucfg('2DPGA')] + ([] if q else [ucfg(sig=[1, 1, 1, -1]), ucfg(sig=[1, -1])]))]
+    sfiles = [r_['out'] for r_ in _subst_jobs(sj) if r_['events']]
+    from drive_ops import lookup_event as _lk
+    for f_, (eid_, clause_) in ctx.validate('TraceOps.tla', 'TraceOps.cfg', sfiles):
+        h_, ev_ = _lk(f_, eid_)
+        ctx.report(f"call of the symbolic multivector on keys {ev_['args'][0]['keys']} (event {eid_}, after near-equal siblings were called): {clause_}",
+                   {'kind': 'symcall', 'clause': clause_}, {'trace_header': h_, 'event': ev_, 'spec': 'TraceOps.tla'})
     # (3) thread schedules
     import c09_threads
     c09_threads.run_threads(ctx, sessions)
